@@ -195,7 +195,7 @@ def space(tier):
             for c in h["copies"]:
                 c[0] += rng.randrange(0, 64) / 65536
         return {"hosts": hosts, "twice": rng.random() < 0.3}
-    sp.add("random", 4000 if tier == "quick" else 400_000, rnd)
+    sp.add("random", 14000 if tier == "quick" else 400_000, rnd)
 
     def each_bad(j, rng):
         cls = BAD[j % len(BAD)]
